@@ -6,9 +6,10 @@ Model of
     `checkOrGetDescendantHash`, `handleAscendingByNumber`, `handleDescendingByNumber`,
     `handleChainByHash`, `getBlockDataByNumber`, `getBlockData` (dot/sync/message.go, after the
     `fix:` commit recorded in harness/C31/findings.json)
-over a block state that holds a tree of blocks rooted at genesis (a fork-free prefix may be
-finalised, i.e. live in the database: the answers are the same; the queries of
-`state.BlockState` the serving code uses are modelled by what they return on such a tree).
+over a block state that holds a tree of blocks rooted at genesis, possibly after one finalisation
+(blocks up to the finalised head live in the database, forks that do not contain it are pruned);
+the queries of `state.BlockState` the serving code uses are modelled by what they return on such
+a state.  The per-peer same-request limiter (`seenBlockSyncRequests`) is modelled as an LRU list.
 Every definition mirrors one Go function; loops are structural recursion.  Core Lean only.
 -/
 namespace Gossamer.C31
@@ -49,38 +50,49 @@ def plan (a b : Nat) : List PReq :=
 
 /-! ## The block state: a tree of blocks, ids in insertion order, genesis = 0 -/
 
+/-- a block; `dead` = pruned by a finalisation (its header is gone, its hash is unknown) -/
 structure Blk where
   parent : Nat
   num : Nat
+  dead : Bool := false
 deriving DecidableEq, Repr
 
-abbrev Tree := Array Blk
+/-- the block state: all blocks ever added (ids = positions) and the number of the finalised
+    head (blocks up to it live in the database, the block tree is rooted there) -/
+structure Tree where
+  blocks : Array Blk
+  fin : Nat := 0
+deriving Repr
 
-def genesisTree : Tree := #[⟨0, 0⟩]
+def Tree.size (t : Tree) : Nat := t.blocks.size
 
-def known (t : Tree) (h : Nat) : Bool := h < t.size
-def parentOf (t : Tree) (h : Nat) : Nat := (t[h]?.map (·.parent)).getD 0
-def numOf (t : Tree) (h : Nat) : Nat := (t[h]?.map (·.num)).getD 0
+def genesisTree : Tree := ⟨#[⟨0, 0, false⟩], 0⟩
+
+/-- the hash is known to the block state (`GetHeader` succeeds) -/
+def known (t : Tree) (h : Nat) : Bool := (t.blocks[h]?.map (fun b => !b.dead)).getD false
+def parentOf (t : Tree) (h : Nat) : Nat := (t.blocks[h]?.map (·.parent)).getD 0
+def numOf (t : Tree) (h : Nat) : Nat := (t.blocks[h]?.map (·.num)).getD 0
 
 /-- the harness' segment `p:k`: `k` blocks chained below block `p` -/
 def addSeg (t : Tree) : (k p : Nat) → Tree
   | 0, _ => t
-  | k + 1, p => addSeg (t.push ⟨p, numOf t p + 1⟩) k t.size
+  | k + 1, p => addSeg ⟨t.blocks.push ⟨p, numOf t p + 1, false⟩, t.fin⟩ k t.size
 
-/-- greatest block number in the tree -/
-def maxNum (t : Tree) : Nat := t.toList.foldl (fun m b => max m b.num) 0
+/-- greatest number of a block that is still there -/
+def maxNum (t : Tree) : Nat :=
+  t.blocks.toList.foldl (fun m b => if b.dead then m else max m b.num) 0
 
-/-- number of blocks with that number -/
+/-- number of (not pruned) blocks with that number -/
 def countNum (t : Tree) (n : Nat) : Nat :=
-  t.toList.foldl (fun c b => if b.num = n then c + 1 else c) 0
+  t.blocks.toList.foldl (fun c b => if !b.dead && b.num = n then c + 1 else c) 0
 
-/-- position (counted from `i`) of the first block with number `n` in `l`; 0 if there is none -/
+/-- position (counted from `i`) of the first not pruned block with number `n`; 0 if none -/
 def firstIdx (n : Nat) : List Blk → Nat → Nat
   | [], _ => 0
-  | b :: rest, i => if b.num = n then i else firstIdx n rest (i + 1)
+  | b :: rest, i => if !b.dead && b.num = n then i else firstIdx n rest (i + 1)
 
 /-- id of the first block with number `n` (0 if none) -/
-def firstWithNum (t : Tree) (n : Nat) : Nat := firstIdx n t.toList 0
+def firstWithNum (t : Tree) (n : Nat) : Nat := firstIdx n t.blocks.toList 0
 
 /-- The best block of `blocktree.leaves.bestBlock()` when no block is a BABE primary block and
     exactly one leaf is deepest (the harness builds only such trees): the deepest block. -/
@@ -94,25 +106,36 @@ def upN (t : Tree) (h : Nat) : Nat → Nat
   | 0 => h
   | k + 1 => parentOf t (upN t h k)
 
-/-- `GetHashByNumber(n)`: the block with number `n` on the chain of the best block -/
+/-- `GetHashByNumber(n)`: the block with number `n` on the chain of the best block (from the
+    block tree, or from the database below the finalised head: the same block) -/
 def hashByNumber (t : Tree) (n : Nat) : Option Nat :=
   if n > bestNum t then none else some (upN t (best t) (bestNum t - n))
 
+/-- `SetFinalisedHash` of the block with number `fin` of the best chain: that block becomes the
+    root of the block tree, its ancestors live in the database only, and `blocktree.Prune` drops
+    every block that is neither an ancestor nor a descendant of it -/
+def finalise (t : Tree) (fin : Nat) : Tree :=
+  let f := upN t (best t) (bestNum t - fin)
+  let keep (i : Nat) (b : Blk) : Bool :=
+    (b.num ≤ fin && upN t f (fin - b.num) = i) || (fin ≤ b.num && upN t i (b.num - fin) = f)
+  ⟨(t.blocks.toList.zipIdx.map (fun (b, i) => if keep i b then b else { b with dead := true })).toArray,
+   fin⟩
+
 /-- children of `h` in insertion order (`node.children`) -/
 def children (t : Tree) (h : Nat) : List Nat :=
-  (List.range t.size).filter (fun i => i ≠ 0 ∧ parentOf t i = h)
+  (List.range t.size).filter (fun i => i ≠ 0 ∧ known t i ∧ parentOf t i = h)
 
-/-- blocks with number `n` in the order of `node.hashesAtNumber` (depth-first, children in
-    insertion order) -/
+/-- blocks with number `n` in depth-first order, children in insertion order -/
 def levelAt (t : Tree) : Nat → List Nat
   | 0 => [0]
   | n + 1 => (levelAt t n).flatMap (children t)
 
-/-- `GetAllBlocksAtNumber(n)` -/
+/-- `GetAllBlocksAtNumber(n)`: `node.hashesAtNumber` from the root of the block tree (nothing
+    below the finalised head, nothing above the deepest leaf) -/
 def hashesAtNumber (t : Tree) (n : Nat) : List Nat :=
-  if n > bestNum t then [] else levelAt t n
+  if n > bestNum t then [] else if n < t.fin then [] else levelAt t n
 
-/-- `IsDescendantOf(a, d)`; `none` = error (a hash that is not in the tree) -/
+/-- `IsDescendantOf(a, d)`; `none` = error (a hash that is not known) -/
 def isDescendantOf (t : Tree) (a d : Nat) : Option Bool :=
   if a = d then some true
   else if !known t a || !known t d then none
@@ -123,20 +146,24 @@ def pathUp (t : Tree) (d : Nat) : Nat → List Nat
   | 0 => []
   | k + 1 => upN t d k :: pathUp t d k
 
-/-- `BlockState.Range(a, d)` with nothing finalised beyond genesis; `none` = error.
-    `blocktree.Range` walks up from `d` for `num d - num a` steps and (since the `fix:` commit
-    in lib/blocktree) fails with `ErrStartNotAncestorOfEnd` unless the walk ends on `a` -/
+/-- `BlockState.Range(a, d)`; `none` = error.  Whether the blocks come from the database
+    (`retrieveRangeFromDatabase`), the block tree (`blocktree.Range`) or both (`retrieveRange`),
+    the walk goes up from `d` for `num d - num a` steps and fails unless it ends on `a`
+    (`ErrStartHashMismatch` / `ErrStartNotAncestorOfEnd`, the latter since the `fix:` commit in
+    lib/blocktree) -/
 def range (t : Tree) (a d : Nat) : Option (List Nat) :=
   if a = d then some [a]
-  else if d = 0 then none            -- genesis is in the database, `a` is not
+  else if d = 0 then none            -- genesis is in the database, `a` is not below it
   else if !known t d then none
-  else if !known t a then none       -- falls back to the database below the root
+  else if !known t a then none
   else if numOf t a > numOf t d then none
   else if upN t d (numOf t d - numOf t a) ≠ a then none
   else some (a :: pathUp t d (numOf t d - numOf t a))
 
 /-! ## Stored block data (which optional fields exist is decided by the harness per block id) -/
 
+/-- the harness deletes the stored body of every finalised block with `id % 7 = 3` -/
+def hasBody (t : Tree) (id : Nat) : Bool := !(numOf t id ≤ t.fin && id % 7 = 3)
 def hasReceipt (id : Nat) : Bool := id % 3 ≠ 0
 def hasMessageQueue (id : Nat) : Bool := id % 4 ≠ 1
 def hasJustification (id : Nat) : Bool := id % 5 ≠ 2
@@ -153,7 +180,7 @@ def bit (c : Bool) (v : Nat) : Nat := if c then v else 0
 def getBlockData (t : Tree) (h mask : Nat) : BData :=
   let k := known t h
   ⟨h, bit (mask &&& 1 = 1 && k) 1
-    + bit ((mask &&& 2) >>> 1 = 1 && k) 2
+    + bit ((mask &&& 2) >>> 1 = 1 && k && hasBody t h) 2
     + bit ((mask &&& 4) >>> 2 = 1 && k && hasReceipt h) 4
     + bit ((mask &&& 8) >>> 3 = 1 && k && hasMessageQueue h) 8
     + bit ((mask &&& 16) >>> 4 = 1 && k && hasJustification h) 16⟩
@@ -276,11 +303,68 @@ def handleDescending (t : Tree) (r : Request) : Except Err (List BData) :=
     -- make(.., (start-end)+1); for i := 0; start-i >= end; i++
     descByNumber t r.mask (startNumber + 1 - endNumber) startNumber
 
-/-- `CreateBlockResponse` on a fresh service (the same-request counter is at 0) -/
-def serve (t : Tree) (r : Request) : Except Err (List BData) :=
-  if r.mask = 0 then .error .invalid
-  else if r.dir = 0 then handleAscending t r
+/-- the `switch req.Direction` of `CreateBlockResponse` -/
+def dispatch (t : Tree) (r : Request) : Except Err (List BData) :=
+  if r.dir = 0 then handleAscending t r
   else if r.dir = 1 then handleDescending t r
   else .error .dir
+
+/-- `CreateBlockResponse` on a fresh service (the same-request counter is at 0) -/
+def serve (t : Tree) (r : Request) : Except Err (List BData) :=
+  if r.mask = 0 then .error .invalid else dispatch t r
+
+/-! ## The same-request limiter of `CreateBlockResponse` -/
+
+/-- `maxNumberOfSameRequestPerPeer` -/
+def maxSame : Nat := 2
+
+/-- capacity of `seenBlockSyncRequests` (`lrucache.NewLRUCache(100)` in `NewSyncService`) -/
+def seenCap : Nat := 100
+
+/-- what `common.Blake2bHash(peer ‖ req.Encode())` depends on: the peer and the protobuf
+    fields (a number above 2^32-1 is clamped by `FromBlock.Encode`, a nil `Max` is sent as 0) -/
+structure ReqKey where
+  peer : Nat
+  mask : Nat
+  byHash : Bool
+  start : Nat
+  dir : Nat
+  max : Nat
+deriving DecidableEq, Repr
+
+def reqKey (peer : Nat) (r : Request) : ReqKey :=
+  match r.from_ with
+  | .num n => ⟨peer, r.mask, false, if n > 4294967295 then 4294967295 else n, r.dir, r.max.getD 0⟩
+  | .hash h => ⟨peer, r.mask, true, h, r.dir, r.max.getD 0⟩
+
+/-- `lrucache.LRUCache`: entries, most recently used first -/
+abbrev Cache := List (ReqKey × Nat)
+
+/-- `LRUCache.Get`: the value (0 if absent); a hit moves the entry to the front -/
+def lruGet (c : Cache) (k : ReqKey) : Nat × Cache :=
+  match c.find? (fun e => e.1 = k) with
+  | some e => (e.2, e :: c.filter (fun e => e.1 ≠ k))
+  | none => (0, c)
+
+/-- `LRUCache.Put` -/
+def lruPut (cap : Nat) (c : Cache) (k : ReqKey) (v : Nat) : Cache :=
+  if c.any (fun e => e.1 = k) then (k, v) :: c.filter (fun e => e.1 ≠ k)
+  else
+    -- full: drop the least recently used entry (the back of the list)
+    let c := if c.length ≥ cap then c.dropLast else c
+    (k, v) :: c
+
+inductive Outcome
+  | refused                                   -- errMaxNumberOfSameRequest, the peer is reported
+  | answered (r : Except Err (List BData))
+
+/-- one call of `CreateBlockResponse(peer, r)` on a service whose cache is `c` -/
+def request (t : Tree) (c : Cache) (peer : Nat) (r : Request) : Cache × Outcome :=
+  if r.mask = 0 then (c, .answered (.error .invalid))
+  else
+    let k := reqKey peer r
+    let (n, c) := lruGet c k
+    if n ≥ maxSame then (c, .refused)
+    else (lruPut seenCap c k (n + 1), .answered (dispatch t r))
 
 end Gossamer.C31
